@@ -34,7 +34,7 @@ var labelRe = regexp.MustCompile(`[^A-Za-z0-9_]`)
 
 func (w *World) newInput(label string, wd uint8) *Term {
 	r := w.run
-	name := fmt.Sprintf("in%d_%s", len(r.inputs), labelRe.ReplaceAllString(label, "_"))
+	name := fmt.Sprintf("in%d_w%d_%s", len(r.inputs), wd, labelRe.ReplaceAllString(label, "_"))
 	r.inputs = append(r.inputs, InputRec{Name: name, Label: label, W: wd})
 	if w.concrete != nil {
 		// concrete mode: inputs come from the vector
@@ -342,8 +342,7 @@ func (w *World) checkKF(cond value, label, key string, kcond value, where string
 			if w.evalBool(b) {
 				hit = true
 			} else {
-				w.flushPC()
-				res, _ := w.solver.Check(b, false)
+				res, _ := w.query(b, false)
 				hit = res == ResSat
 			}
 		}
